@@ -16,6 +16,13 @@ def gen(rng, tier):
         if rng.random() < 0.12 and G["edges"]:
             G, D = common.scale_game(rng, G, D); fam = fam + "*2^k"
         c = {"G": G, "D": D, "fam": fam, "s": rng.randrange(1 << 30)}
+        if rng.random() < 0.2:                          # the divisor asked about is the RESULT of divisor arithmetic (k*E, A+B, A-B, -E), not a constructor call
+            how = rng.choice(["mul", "mul", "add", "sub", "neg"]); A = common.random_divisor(rng, G)
+            if how == "mul":
+                k = rng.choice([-1, -1, 0, 2, -2, 3]); c["D"] = D = [k * x for x in A]; c["via"] = ["mul", k, A]
+            elif how == "add": c["via"] = ["add", A, [x - y for x, y in zip(D, A)]]
+            elif how == "sub": c["via"] = ["sub", A, [y - x for x, y in zip(D, A)]]
+            else: c["via"] = ["neg", [-x for x in D]]
         if G["n"] >= 2 and rng.random() < 0.25:       # history on ONE divisor object: asked, moved to another class by a chip transfer, asked again
             a, b = rng.sample(range(G["n"]), 2); c["move"] = [a, b, rng.randint(1, 3)]
         cases.append(c)
@@ -34,10 +41,20 @@ def impl(c):
     from chipfiring import EWD, is_winnable
     rng = random.Random(c["s"]); G = c["G"]
     out = {}
+    def mk():
+        via = c.get("via")
+        if not via: return common.build_impl_divisor(G, c["D"], rng=rng)
+        a = common.build_impl_divisor(G, via[-2] if via[0] in ("add", "sub") else via[-1], rng=rng)
+        if via[0] == "mul": r = via[1] * a
+        elif via[0] == "neg": r = -a
+        else:
+            b = common.build_impl_divisor(G, via[-1], graph=a.graph, rng=rng); r = a + b if via[0] == "add" else a - b
+        assert common.div_to_list(G, r) == c["D"], "harness: arithmetic did not produce the intended divisor (C12 reports that)"
+        return r
     for key, kw in (("plain", {}), ("opt", {"optimized": True}), ("plain_vis", {"visualize": True}), ("opt_vis", {"optimized": True, "visualize": True})):
-        d = common.build_impl_divisor(G, c["D"], rng=rng)
+        d = mk()
         out[key] = bool(EWD(d.graph, d, **kw)[0])
-    d = common.build_impl_divisor(G, c["D"], rng=rng)
+    d = mk()
     out["isw"] = bool(is_winnable(d))
     if c.get("move"):
         names = G["names"]; a, b, k = c["move"]
